@@ -2,6 +2,11 @@
 managers), plus exact-rational poses.  Everything imports the working tree of /repo."""
 from __future__ import annotations
 
+import os
+
+for _v in ("OMP_NUM_THREADS", "OPENBLAS_NUM_THREADS", "MKL_NUM_THREADS"):
+    os.environ.setdefault(_v, "1")  # BLAS worker threads are pure overhead on 4x4 matrices
+
 import logging
 import math
 import shutil
